@@ -29,6 +29,7 @@ RULE = (
     "reference pdf. Clauses: LL(fit) >= LL(start) - slack (start admissible), LL(fit) >= LL(generating) - slack, finite and admissible estimates, "
     "equivariance judged in likelihood space (neither fit beaten by the other one rescaled by more than tau); parameter-space equality for the "
     "closed-form estimators (Normal, LogNormal, LogNormalNormFit). Non-trivial = start values differ from the estimates; distinct = (family, parameters, n, start kind, c)."
+    ' Also: every documented way of requesting maximum likelihood (positional, keyword, with string / array weights that must be ignored, upper case); negative locations (data <= 0).'
 )
 ASSUMPTIONS = [
     "log-likelihood computed with the reference pdf (refmodel.py)",
